@@ -140,4 +140,12 @@ theorem gMk_spec (k : GKind) (year month day : Int) (tz : Option Int) (w : DT)
            | exact ⟨this.1, this.2.1, this.2.2.2.2 (by decide)⟩
            | exact ⟨this.1, this.2.1, this.2.2.2.2 (by decide), this.2.2.1⟩)
 
+/-- the raw `_compare` (a value without timezone at UTC) agrees with the comparison under the implicit timezone
+whenever that timezone cannot matter -/
+theorem compare_raw_eq_ctx (itz : Int) (op : Cmp) (a b : DT) (ha : a.Valid) (hb : b.Valid) (hi : TzOk (some itz))
+    (hd : CmpDomain a b) (hd' : CmpDomain (fillTz (some itz) a) (fillTz (some itz) b))
+    (h : ImplicitTzIrrelevant a b itz) : compare op a b = compareCtx (some itz) op a b := by
+  rw [compare_implicit op a b itz ha hb hd h, compareCtx_spec (some itz) op a b ha hb hi hd']
+  rfl
+
 end EPV.Cal
